@@ -33,8 +33,10 @@ def _l1(x):
 
 DIRNAMES = [_l1(x) for x in ["a", "b", "c", "sub", "a+b", "x-y", "d.e", "(p)", "[q]", "żółw", "dir w", "UP", "日本",
                              # a regex metacharacter followed by a digit, by nothing, or by another metacharacter
-                             "r-1", "v1.2", "c++", "x-"]]
-FILENAMES = [_l1(x) for x in ["f.txt", "g.TXT", "h.dat", "k", "m.txt", "n.bin", "README", "x1.txt", "ż.txt", "k$", "^k"]]
+                             "r-1", "v1.2", "c++", "x-",
+                             # a line break inside a name
+                             "n\nl"]]
+FILENAMES = [_l1(x) for x in ["f.txt", "g.TXT", "h.dat", "k", "m.txt", "n.bin", "README", "x1.txt", "ż.txt", "k$", "^k", "t\nx.txt"]]
 
 
 def gen_case(seed, i):
